@@ -190,6 +190,9 @@ var revOps = []Op{{"RegConn", "bd"}, {"DropConn", "bd"}, {"Rev", "2"}, {"Rev", "
 // revOps2 adds a replica bd2 of bd that stays on revision 1.
 var revOps2 = append(append([]Op{}, revOps...), Op{"RegConn", "bd2"}, Op{"DropConn", "bd2"})
 
+// killOps: the back-end bt goes down while registered.
+var killOps = []Op{{"RegConn", "bt"}, {"DropConn", "bt"}, {"Kill", "bt"}}
+
 // listOps: bd starts / stops advertising its second service D2 (declared in
 // the same file, whose bytes do not change): after a refresh with everything
 // advertised both services must be served.
@@ -317,6 +320,29 @@ func RunC11(r *mon.Run) {
 		var keep []History
 		for _, h := range enumerate(listOps, L) {
 			if h[0].K == "List" && h[0].B == "d1" {
+				keep = append(keep, h)
+			}
+		}
+		total += len(keep)
+		outs := g.runAll(keep, Draws)
+		for i, h := range keep {
+			g.account(h, outs[i])
+			g.attribute(h, outs[i], Draws)
+		}
+	}
+	for L := 2; L <= 4; L++ {
+		var keep []History
+		for _, h := range enumerate(killOps, L) {
+			reg := false
+			ok := false
+			for _, o := range h {
+				if o.K == "RegConn" {
+					reg = true
+				} else if o.K == "Kill" && reg {
+					ok = true
+				}
+			}
+			if ok {
 				keep = append(keep, h)
 			}
 		}
